@@ -95,14 +95,15 @@ def r3(ctx):
     ok = isinstance(t, App) and t.fn == "numpy.triu_indices" and t.args == (size,) and (not t.kw or t.kwarg("k") == tm.ZERO)
     ctx.check(ok, tri, "the table is numpy.triu_indices(size) unchanged (row-major upper triangle incl. diagonal)", role="table",
               expected=f"numpy.triu_indices({size})", found=str(t))
-    nin = lambda f: f.qualname.endswith("_upper_triangle_indices")
+    nin = lambda f: f is tri
     comp = ana.func(MC + "compress_matrix")
     bc = ana.builder(comp, no_inline=nin)
     rt = bc.return_term()
     M = Sym(comp.params[0])
     want = Idx(M, (App(tri.qualname, (Idx(Attr(M, "shape"), (tm.ZERO,)),)),))
     ctx.check(rt == want, comp, "compress gathers matrix[table(n)] with n the matrix size", role="compress", expected=str(want), found=str(rt)[:140])
-    unc = ana.func(MC + "_uncompress_upper_triangle")
+    from .c03 import scatter_site
+    unc = scatter_site(ana)      # the scatter helper, or reinflate_matrix when the helper was folded into it
     bu = ana.builder(unc, no_inline=lambda f: nin(f) or f.qualname.endswith("_full_matrix_size"))
     v = Sym(unc.params[0])
     stores = bu.stores()
